@@ -31,11 +31,19 @@ DecVectors ==
   \* byte patterns that look like byte-order marks: at the start and at the start of a segment
   \cup {<<255, 254, 65>>, <<254, 255, 65>>, <<239, 187, 191, 65>>, <<94, 67, 255, 254, 65>>, <<94, 69, 239, 187, 191, 65>>, <<94, 76, 254, 255, 65>>}
 
+\* caret sequences LFS keeps in the text (^^ and ^digit, in particular ^^8 which is NOT the "back to Latin-1" code) between
+\* characters of different code pages: five and six symbols, beyond the bound of the exhaustive enumeration
+NonAscii == {233, 1096, 65295, 65393}
+CaretVectors == {<<a, 94, 94, d, b>> : a \in NonAscii, b \in NonAscii, d \in {56, 49}}
+                \cup {<<a, 94, d, b>> : a \in NonAscii, b \in NonAscii, d \in {56, 49}}
+                \cup {<<a, 94, 94, b>> : a \in NonAscii, b \in NonAscii}
+                \cup {<<a, 94, 94, 94, 56, b>> : a \in NonAscii, b \in NonAscii}
+
 VARIABLE phase
 Init == phase = 1
 Next ==
   \/ /\ phase = 1 /\ phase' = 2
-     /\ \A s \in Strings(MaxLen) :
+     /\ \A s \in Strings(MaxLen) \cup CaretVectors :
           PrintT(<<"TXT", ToJson([t |-> "esc", in |-> s, esc |-> Esc(s), unesc |-> Unesc(s), strip |-> Strip(s), encodable |-> Encodable(s)])>>)
   \/ /\ phase = 2 /\ phase' = 3
      /\ \A b \in DecVectors : PrintT(<<"TXT", ToJson([t |-> "dec", bytes |-> b, text |-> CpDecode(b)])>>)
